@@ -68,7 +68,7 @@ static std::string record(Ctx& c, const std::string& opv, const GEOSGeometry* A,
     else if (var == "aa") { x = A; y = A; }
     else if (var.size() >= 3 && var.substr(0, 2) == "ae") { e = GEOSGeomFromWKT_r(h, EMPTY_WKT[std::stoi(var.substr(2)) % N_EMPTY]); x = A; y = e; }
     else if (var.size() >= 3 && var.substr(0, 2) == "ea") { e = GEOSGeomFromWKT_r(h, EMPTY_WKT[std::stoi(var.substr(2)) % N_EMPTY]); x = e; y = A; }
-    else if (var == "gab") { GEOSGeometry* parts[2] = {GEOSGeom_clone_r(h, A), GEOSGeom_clone_r(h, B)}; gc = GEOSGeom_createCollection_r(h, GEOS_GEOMETRYCOLLECTION, parts, 2); x = gc; }
+    else if (var == "gab") { GEOSGeometry* parts[2] = {GEOSGeom_clone_r(h, A), GEOSGeom_clone_r(h, B)}; gc = GEOSGeom_createCollection_r(h, geos::geom::GEOS_GEOMETRYCOLLECTION, parts, 2); x = gc; }
     lastErr.clear();
     GEOSGeometry* r = nullptr;
     if (op == "int") r = GEOSIntersection_r(h, x, y);
@@ -108,7 +108,7 @@ static void probeRung(Ctx& c, const Geometry* a, const Geometry* b) {
     }
 }
 
-static bool isHandledMixed(const Geometry* g) { return g->getGeometryTypeId() == GEOS_GEOMETRYCOLLECTION; }
+static bool isHandledMixed(const Geometry* g) { return g->getGeometryTypeId() == geos::geom::GEOS_GEOMETRYCOLLECTION; }
 
 static std::string caseLine(Ctx& c, const std::string& ta, const std::string& tb, const GEOSGeometry* a, const GEOSGeometry* b, const std::vector<std::string>& ops) {
     std::string s = "O | " + ta + " | " + tb;
@@ -178,13 +178,13 @@ int main(int argc, char** argv) {
         out.count(std::string("typeA_") + ga->getGeometryType()); out.count(std::string("typeB_") + gb->getGeometryType());
         out.count("dims_" + std::to_string((int) ga->getDimension()) + "_" + std::to_string((int) gb->getDimension()));
         std::vector<std::string> ops;
-        if (cov) { ops = {"cu:a", "uu:a", "dsu:a"}; if (ga->getGeometryTypeId() == GEOS_MULTIPOLYGON) ops.push_back("uc:a"); out.count("case_coverage"); }
+        if (cov) { ops = {"cu:a", "uu:a", "dsu:a"}; if (ga->getGeometryTypeId() == geos::geom::GEOS_MULTIPOLYGON) ops.push_back("uc:a"); out.count("case_coverage"); }
         else {
             for (auto o : BIN) ops.push_back(std::string(o) + ":ab");
             if (r.chance(50)) for (auto o : BIN) ops.push_back(std::string(o) + ":ba");
             if (r.chance(12)) for (auto o : BIN) ops.push_back(std::string(o) + ":aa");
             if (r.chance(12)) { int k = (int) r.below(N_EMPTY); for (auto o : BIN) { ops.push_back(std::string(o) + ":ae" + std::to_string(k)); ops.push_back(std::string(o) + ":ea" + std::to_string(k)); } }
-            if (r.chance(35)) { ops.push_back("uu:a"); if (r.chance(50)) ops.push_back("dsu:a"); if (ga->getGeometryTypeId() == GEOS_MULTIPOLYGON) ops.push_back("uc:a"); }
+            if (r.chance(35)) { ops.push_back("uu:a"); if (r.chance(50)) ops.push_back("dsu:a"); if (ga->getGeometryTypeId() == geos::geom::GEOS_MULTIPOLYGON) ops.push_back("uc:a"); }
             if (r.chance(10)) ops.push_back("uu:gab");
             if (!dbl && r.chance(20)) {      // clip by a lattice rectangle (axis-parallel under the 8 lattice symmetries)
                 long x0 = r.range(-1, gen.span - 1), y0 = r.range(-1, gen.span - 1), x1 = r.range((int) x0 + 1, gen.span + 1), y1 = r.range((int) y0 + 1, gen.span + 1);
@@ -192,7 +192,7 @@ int main(int argc, char** argv) {
                 ops.push_back("clip:a:" + hex(std::min(ax, bx)) + ":" + hex(std::min(ay, by)) + ":" + hex(std::max(ax, bx)) + ":" + hex(std::max(ay, by))); }
         }
         { FILE* cf = std::fopen((std::string(argv[4]) + ".current").c_str(), "w"); if (cf) { std::string s = "O | " + ta + " | " + tb; for (auto& o : ops) s += " | " + o; std::fprintf(cf, "%s\n", s.c_str()); std::fclose(cf); } }
-        if (dbl && !cov && ga->getGeometryTypeId() != GEOS_GEOMETRYCOLLECTION && gb->getGeometryTypeId() != GEOS_GEOMETRYCOLLECTION
+        if (dbl && !cov && ga->getGeometryTypeId() != geos::geom::GEOS_GEOMETRYCOLLECTION && gb->getGeometryTypeId() != GEOS_GEOMETRYCOLLECTION
             && !(ga->getDimension() == 0 || gb->getDimension() == 0)) probeRung(c, ga.get(), gb.get());
         out.emit(caseLine(c, ta, tb, (GEOSGeometry*) ga.get(), (GEOSGeometry*) gb.get(), ops), "ok");
     }
